@@ -568,6 +568,12 @@ def run_driver(exe, cases, trace, timeout=900, env=None, max_restarts=25, args=N
                 with open(trace, "a") as f:
                     f.write(json.dumps({"op": "CRASH", "i": idx, "sig": -rc}) + "\n")
                 last = {"op": "CRASH", "i": idx}
+            if rc in (3, 4) and (not last or "i" not in last):
+                # the fatal-signal handler ran but its event did not reach the trace (a multi-threaded driver dying before
+                # the first event): the abnormal end belongs to the first case not yet executed (seed C19-w1)
+                with open(trace, "a") as f:
+                    f.write(json.dumps({"op": "CRASH", "i": start, "sig": rc}) + "\n")
+                last = {"op": "CRASH", "i": start}
             if not last or "i" not in last:
                 raise InfraError("driver %s died (rc=%s) without an event; see %s" % (exe, rc, errlog))
             start = last["i"] + 1
